@@ -161,7 +161,7 @@ P("C15",
           "url=empty": 20, "url=long": 20, "url=hex-of-other": 20,
           "corrupt=trunc-boundary": 5, "corrupt=trunc-random": 5, "corrupt=flip-json": 5, "corrupt=flip-base64": 5, "corrupt=flip-der": 5,
           "corrupt=swap-fields": 5, "corrupt=rename-field": 5, "corrupt=foreign-json": 5, "corrupt=empty": 5, "corrupt=dir": 5,
-          "entry-mutation=trunc": 100, "entry-mutation=flip": 100, "entry-mutation=derflip": 100, "entry-get=bundle": 20, "entry=malformed": 100, "expiry-crossing": 2},
+          "entry-mutation=trunc": 100, "entry-mutation=flip": 100, "entry-mutation=derflip": 100, "entry-get=bundle": 20, "entry=malformed": 100, "expiry-crossing": 1},
   fuzz=[{"name": "FuzzC15_CacheEntry", "seconds": 120}])
 
 P("C16",
